@@ -19,7 +19,7 @@ from fractions import Fraction
 import numpy as np
 
 PROP = 'C13'
-TARGETS = ['T13s', 'T13se', 'T13k']
+TARGETS = ['T13s', 'T13se', 'T13k', 'T13v']
 LEAN_MODULES = ['HdVerif.Props.C13']
 MODEL_MODULES = ['HdVerif.Model.SRItems']
 NAMESPACE = 'HdVerif.C13'
